@@ -368,7 +368,9 @@ impl<'a> TermGen<'a> {
                     return self.leaf(scope);
                 }
                 let s = *self.rng.pick(scope);
-                Tm::node("g", vec![s], vec![(vec![], self.term(depth - 1, scope))])
+                // (no extra draw) a third of these nodes have the child before the slot
+                let name = if (s as usize + depth) % 3 == 0 { "gr" } else { "g" };
+                Tm::node(name, vec![s], vec![(vec![], self.term(depth - 1, scope))])
             }
             3 => {
                 let (x, inner) = self.enter_binder(scope);
